@@ -491,6 +491,19 @@ pub fn check(prop: &str, tier: &str) -> Option<Report> {
         }
       }
       w.extend(prefilled);
+      // a plain Subject (and the harness's hot source) that has already delivered a terminal when the
+      // subscriber arrives: whatever it does with the late subscriber, is_subscribed() has to tell the truth
+      let mut preterminated: Vec<World> = vec![];
+      for k in [SrcKind::Hot, SrcKind::Subject] {
+        for pre in [Ev::C, Ev::E(5)] {
+          for x in w.iter().filter(|x| x.srcs[0] == k && !matches!(x.acts.first(), Some(Act::Emit(..)))).step_by(if th { 1 } else { 3 }) {
+            let mut acts = vec![Act::Emit(0, pre.clone())];
+            acts.extend(x.acts.iter().cloned());
+            preterminated.push(World { srcs: vec![k.clone()], acts });
+          }
+        }
+      }
+      w.extend(preterminated);
       let oracle = match prop {
         "C05" => vec![Oracle::Unsub],
         "C06" => vec![Oracle::Teardown],
@@ -906,6 +919,12 @@ pub fn c07_slice(r: &mut Report, tier: &str) {
       mp.push(Node::op(Op::FlatMap(k), Node::Src(0)));
     }
     fams.push((Family { name: "monitor slice: combining operators re-subscribed from a callback".into(), pipelines: mp, worlds: Arc::new(wn), oracles: vec![] }, 1));
+  }
+  // callbacks that re-enter the library on the same thread: push into a source the pipeline is fed
+  // from (either input of a combining operator), unsubscribe their own subscription, end an inner observable
+  for (mut f, d) in feedback_families(th, &last_pos, vec![]).into_iter().chain(self_unsub_families(th, &last_pos, vec![])).chain(inner_unsub_families(th, vec![])) {
+    f.name = format!("monitor slice: {}", f.name);
+    fams.push((f, d));
   }
   let stop = AtomicBool::new(false);
   let mut per = vec![];
